@@ -172,3 +172,22 @@ func typeNameOf(t types.Type) string {
 	}
 	return types.TypeString(t, nil)
 }
+
+// occCallsTo: the calls to target in fn's region (fn and the private helpers
+// it calls, except those for which stop is true).
+func occCallsTo(fn, target *ssa.Function, stop func(*ssa.Function) bool) []an.Occ {
+	var out []an.Occ
+	an.Region(fn, func(g *ssa.Function) bool { return sameFunc(g, target) || (stop != nil && stop(g)) }, func(o an.Occ) {
+		if call, ok := o.In.(*ssa.Call); ok {
+			if sc := an.StaticCallee(&call.Call); sc != nil && sameFunc(sc, target) {
+				out = append(out, o)
+			}
+		}
+	})
+	return out
+}
+
+// occArg: access path, in the region root's terms, of argument i of the call at o.
+func occArg(o an.Occ, i int) string {
+	return o.Path(o.In.(*ssa.Call).Call.Args[i])
+}
